@@ -19,6 +19,7 @@ import (
 
 	acracensor "github.com/cossacklabs/acra/acra-censor"
 	"github.com/cossacklabs/acra/encryptor/base/config"
+	encmysql "github.com/cossacklabs/acra/encryptor/mysql"
 	"github.com/cossacklabs/acra/keystore/v2/keystore/asn1"
 	"github.com/cossacklabs/acra/sqlparser"
 	mydialect "github.com/cossacklabs/acra/sqlparser/dialect/mysql"
@@ -65,6 +66,10 @@ func init() {
 		return outcome(err)
 	})
 	core.Register("C14.censorconfig", func(a []string) string {
+		// query_capture handlers create their log files where the (mutated) configuration says: keep them in a
+		// scratch directory, never in the working directory of the check
+		restore := chdirScratch()
+		defer restore()
 		c := acracensor.NewAcraCensor()
 		defer c.ReleaseAll()
 		return outcome(c.LoadConfiguration(core.UnHex(a[0])))
@@ -74,6 +79,28 @@ func init() {
 		_, e2 := config.MapTableSchemaStoreFromConfig(core.UnHex(a[0]), config.UseMySQL)
 		return outcome(e1) + " " + outcome(e2)
 	})
+	// C14.mycomment <sql>: a statement with MySQL version comments on every server path that tokenizes client
+	// SQL with Acra's own parser – AcraCensor.HandleQuery (both proxies call it for every client statement;
+	// strict parser), HandleRawSQLQuery (normalisation / redaction; both modes), the MySQL proxy's query object
+	// (NewOnQueryObjectFromQuery(..).Statement(), what the query observers call) and the dialect parsers.
+	// The tokenizer hands every `/*!…*/` to sqlparser.ExtractMysqlComment (Tokenizer.scanMySQLSpecificComment).
+	core.Register("C14.mycomment", func(a []string) string {
+		q := string(core.UnHex(a[0]))
+		c := commentCensor()
+		e0 := c.HandleQuery(q)
+		_, _, _, e1 := sqlparser.New(sqlparser.ModeStrict).HandleRawSQLQuery(q)
+		_, _, _, e2 := sqlparser.New(sqlparser.ModeDefault).HandleRawSQLQuery(q)
+		_, e3 := encmysql.NewOnQueryObjectFromQuery(q, sqlparser.New(sqlparser.ModeDefault)).Statement()
+		_, e4 := sqlparser.ParseWithDialect(mydialect.NewMySQLDialect(), q)
+		_, e5 := sqlparser.ParseWithDialect(pgdialect.NewPostgreSQLDialect(), q)
+		return outcome(e0) + " " + outcome(e1) + " " + outcome(e2) + " " + outcome(e3) + " " + outcome(e4) + " " + outcome(e5)
+	})
+	// C14.extractcomment <comment>: sqlparser.ExtractMysqlComment itself on a complete comment `/*!…*/`
+	// (its documented domain; the tokenizer never calls it with anything else) → ok <version> <inner SQL>
+	core.Register("C14.extractcomment", func(a []string) string {
+		v, sql := sqlparser.ExtractMysqlComment(string(core.UnHex(a[0])))
+		return "ok " + core.Hex([]byte(v)) + " " + core.Hex([]byte(sql))
+	})
 	core.Register("C14.asn1", func(a []string) string {
 		b := core.UnHex(a[0])
 		_, e1 := asn1.UnmarshalVerifiedContainer(b)
@@ -82,6 +109,20 @@ func init() {
 		_, e4 := asn1.UnmarshalEncryptedKeys(b)
 		return outcome(e1) + " " + outcome(e2) + " " + outcome(e3) + " " + outcome(e4)
 	})
+}
+
+var theCommentCensor *acracensor.AcraCensor
+
+// commentCensor: a firewall as a deployment would configure it (deny list, then allow everything else).
+func commentCensor() *acracensor.AcraCensor {
+	if theCommentCensor == nil {
+		c := acracensor.NewAcraCensor()
+		if err := c.LoadConfiguration([]byte("ignore_parse_error: false\nversion: 0.85.0\nhandlers:\n  - handler: deny\n    queries:\n      - SELECT 1 FROM forbidden\n  - handler: allowall\n")); err != nil {
+			panic("harness: censor configuration: " + err.Error())
+		}
+		theCommentCensor = c
+	}
+	return theCommentCensor
 }
 
 // ---------- seeds ----------
@@ -166,6 +207,9 @@ func run(r *core.Run) {
 		r.Check(out != core.Panic, "panic:"+op, what+" panics: "+firstLine(core.LastPanic))
 		r.Check(out != "timeout" && out != "oom", "hang:"+op, what+" does not terminate / exhausts memory: "+out)
 	}
+	// 0. regression corpus + boundary table: MySQL version comments (`/*!NNNNN text */`), which the tokenizer
+	// of Acra's own SQL parser hands to ExtractMysqlComment – on every path that parses client SQL
+	versionComments(r, guard)
 	// 1. SQL
 	var sql [][]byte
 	for _, s := range sqlSeeds {
@@ -264,6 +308,109 @@ func run(r *core.Run) {
 		for _, op := range []string{"handler.reveal", "detector.oncolumn", "detector.compat"} {
 			out := r.Do(fmt.Sprintf("C01.%s %s %s", op, kv.Tokens(), core.Hex(x)))
 			r.Check(out != core.Panic, "panic:"+op, op+" panics on tag-rich garbage")
+		}
+	}
+}
+
+// commentWitnesses: statements that crashed the pinned tree (ExtractMysqlComment sliced sql[0:-1] when
+// nothing but at most five digits followed `/*!`) – fixed; kept as the regression corpus, run first.
+var commentWitnesses = []string{"/*!123*/", "/*!*/", "/*!5*/", "/*!12345*/", "select 1 /*!99999*/", "select /*!40101*/ 1", "/*!1*//*!22*/"}
+
+// versionComments: corpus, then the boundary table – every digit count 0..7 × what follows the digits
+// (nothing, text with and without a space, a star, non-ASCII digits) × terminated or not × where the
+// comment stands in the statement (alone, leading, inside, trailing, twice, nested).
+func versionComments(r *core.Run, guard func(op string, in []byte, line string, isolated bool)) {
+	one := func(tag, q string) {
+		r.Begin("mycomment-"+core.Hex([]byte(q)), true, "stream:"+tag)
+		guard("C14.mycomment", []byte(q), "C14.mycomment "+core.Hex([]byte(q)), false)
+	}
+	for _, q := range commentWitnesses {
+		one("corpus-version-comment", q)
+	}
+	var comments []string
+	tails := []string{"", " ", "x", " x", " select 1 ", "select 1", "*", "**", " *", "/", "\u0663", "\u0663\u0663 1", "'", "\x00", "-- x", "/* y"}
+	for digits := 0; digits <= 7; digits++ {
+		ver := "1234567"[:digits]
+		for _, t := range tails {
+			for _, end := range []string{"*/", "", "*", "/", "* /"} {
+				comments = append(comments, "/*!"+ver+t+end)
+			}
+		}
+	}
+	comments = append(comments, "/*!", "/*", "/*!*", "/*!/", "/*!*/*/", "/*!99999 /*!1*/ */", "/*!12345/*!*/*/", "/*! 12345 select 1*/", "/*!000000*/", "/*!99999999999999999999*/")
+	frames := []string{"%s", "%s select 1", "select %s 1", "select 1 %s", "select 1 from t where a = 1 %s and b = 2", "%s%s", "select '%s'", "-- %s", "select 1; %s", "insert into t values (%s)"}
+	rd := r.Rand
+	n := 0
+	for _, c := range comments {
+		// the comment alone always; the other positions sampled (all of them in the thorough tier)
+		for fi, f := range frames {
+			if fi > 0 && !r.Thorough() && !rd.Chance(12) {
+				continue
+			}
+			one("boundary-version-comment", strings.ReplaceAll(f, "%s", c))
+			n++
+		}
+		// the decoder itself on its documented domain (complete comments): compared with the model for ASCII
+		if strings.HasPrefix(c, "/*!") && strings.HasSuffix(c, "*/") && len(c) >= 5 {
+			r.Begin("extractcomment-"+core.Hex([]byte(c)), true, "stream:boundary-version-comment")
+			var out string
+			if isASCII(c) {
+				out = r.Do("C14.extractcomment " + core.Hex([]byte(c)))
+			} else {
+				out = r.Impl("C14.extractcomment " + core.Hex([]byte(c)))
+			}
+			r.Tag("op:C14.extractcomment", "outcome:"+strings.SplitN(out, " ", 2)[0])
+			r.Check(out != core.Panic, "panic:C14.extractcomment", fmt.Sprintf("ExtractMysqlComment(%q) panics: %s", c, firstLine(core.LastPanic)))
+		}
+	}
+	// random comment bodies from a comment-relevant alphabet
+	alpha := []byte("0123456789 */!x\n")
+	for i := 0; i < r.N(300, 20000); i++ {
+		b := make([]byte, rd.Intn(10))
+		for j := range b {
+			b[j] = alpha[rd.Intn(len(alpha))]
+		}
+		c := "/*!" + string(b) + "*/"
+		one("random-version-comment", strings.ReplaceAll(core.Pick(rd, frames), "%s", c))
+		if !strings.Contains(string(b), "*/") {
+			r.Begin("extractcomment-"+core.Hex([]byte(c)), true, "stream:random-version-comment")
+			out := r.Do("C14.extractcomment " + core.Hex([]byte(c)))
+			r.Check(out != core.Panic, "panic:C14.extractcomment", fmt.Sprintf("ExtractMysqlComment(%q) panics: %s", c, firstLine(core.LastPanic)))
+		}
+	}
+	r.Extra["version_comment_cases"] = n
+}
+
+func isASCII(s string) bool {
+	for i := 0; i < len(s); i++ {
+		if s[i] >= 0x80 {
+			return false
+		}
+	}
+	return true
+}
+
+var scratchDir string
+
+// chdirScratch changes into a per-process scratch directory and returns the function that changes back.
+func chdirScratch() func() {
+	if scratchDir == "" {
+		d, err := os.MkdirTemp("", "verif-c14-")
+		if err != nil {
+			panic("harness: " + err.Error())
+		}
+		scratchDir = d
+	}
+	old, err := os.Getwd()
+	if err != nil || os.Chdir(scratchDir) != nil {
+		return func() {}
+	}
+	return func() {
+		os.Chdir(old)
+		if es, err := os.ReadDir(scratchDir); err == nil && len(es) > 256 {
+			for _, e := range es {
+				os.RemoveAll(filepath.Join(scratchDir, e.Name()))
+			}
 		}
 	}
 }
